@@ -6,7 +6,9 @@ CLASSES = ['root', 'namespace', 'component', 'interface', 'system', 'foreign', '
            'file-name', 'port', 'ports', 'event', 'events', 'formal', 'formals', 'signature', 'scope_name', 'types',
            'fields', 'range', 'data', 'instance', 'instances', 'binding', 'bindings', 'end-point', 'comment',
            'bogus', '', 'Component']
-BAD_IDS = ['', '9a', 'a b', 'a.b', 'a-b', 'é', 'a\n', ' a']
+BAD_IDS = ['', '9a', 'a b', 'a.b', 'a-b', 'é', 'a\n', ' a', '{}', '{0}', '%s']
+# strings that mean something to str.format / % / Template when they end up inside an error message
+HOSTILE_STRS = ['{injected}', '{}', '{', 'a}b', '{0}{1}', '%s %d', '%(x)s', '${x}', '{0!r:>{1}}', '\\', '{cls}']
 
 
 def paths(j, prefix=()):
@@ -49,6 +51,8 @@ def single_faults(doc, path):
         if type(r) is type(node) and r == node:
             continue
         variant(f'retype:{type(r).__name__}', lambda par, key, r=r: par.__setitem__(key, copy.deepcopy(r)))
+    for h in HOSTILE_STRS:
+        variant(f'hostile-str:{h}', lambda par, key, h=h: par.__setitem__(key, h))
     if path[-1] == '<class>':
         for c in CLASSES:
             if c != node:
